@@ -886,6 +886,9 @@ func (p *Printer) loop(loop Loop) {
 		if loop.InPos.IsValid() {
 			p.spacedString(" in", Pos{})
 			p.wordJoin(loop.Items)
+		} else {
+			// a comment may be flushed right after the name
+			p.wantSpace = spaceRequired
 		}
 	case *CStyleLoop:
 		p.w.WriteString("((")
